@@ -341,6 +341,10 @@ fn zm_patterns(ty: Ty) -> Vec<u8> {
 }
 
 enum Unit {
+    /// zigzag strips of 2k vertices whose ordinates are just below 2^52: consecutive terms of the area sum are about
+    /// +-2^53 and cancel, the running sum stays exact; and flat rings whose heights are a few units of the smallest
+    /// subnormal
+    Sawtooth { ty: Ty },
     /// triangles over a 10 x 10 grid of coordinates of very different magnitude, first vertex fixed
     Magnitudes { ty: Ty, first: usize, thorough: bool },
     /// single ring over L3: sequences [lo, hi) of a given length
@@ -454,6 +458,61 @@ fn enumerate(u: &Unit, ctx: &mut Ctx, tick: &dyn Fn()) {
                     let p = vec![a, pt(j), pt(k)];
                     for role in 0..2u8 {
                         run_case(&Case { ty: *ty, ctor: Ctor::WithRings, rings: vec![(role, p.clone())] }, ctx);
+                    }
+                }
+                tick();
+            }
+        }
+        Unit::Sawtooth { ty } => {
+            for k in 3..=40usize {
+                let a = 4503599627370496.0 - 2.0 * k as f64 - 5.0;
+                // up the left side zigzagging between x = 0 and 1, down the right side between x = 2 and 3
+                let mut p: Vec<P4> = (0..k).map(|i| [(i % 2) as f64, a + i as f64, 5.0, 7.0]).collect();
+                p.extend((0..k).rev().map(|i| [2.0 + (i % 2) as f64, a + i as f64, 5.0, 7.0]));
+                for rev in [false, true] {
+                    let mut q = p.clone();
+                    if rev {
+                        q.reverse();
+                    }
+                    for role in 0..2u8 {
+                        run_case(&Case { ty: *ty, ctor: Ctor::WithRings, rings: vec![(role, q.clone())] }, ctx);
+                    }
+                }
+                tick();
+            }
+            // a single zigzag between x = 0 and 1 whose ordinates wander irregularly inside a band of a few units just
+            // below 2^52 (the ring may cross itself: orientation is defined by the sign of the exact area): terms of
+            // about +-2^53 with all their bits, an area of a few units; the running sum taken edge after edge is
+            // exact, any other grouping of the additions is not
+            for teeth in (5..=45usize).step_by(2) {
+                for m in 1..8usize {
+                    for modulus in [5usize, 7, 8, 11] {
+                        let base = 4503599627370496.0 - 4096.0 + 850.0;
+                        let p: Vec<P4> = (0..teeth).map(|i| [(i % 2) as f64, base + ((i * m) % modulus) as f64, 5.0, 7.0]).collect();
+                        for rev in [false, true] {
+                            let mut q = p.clone();
+                            if rev {
+                                q.reverse();
+                            }
+                            for role in 0..2u8 {
+                                run_case(&Case { ty: *ty, ctor: Ctor::WithRings, rings: vec![(role, q.clone())] }, ctx);
+                            }
+                        }
+                    }
+                }
+                tick();
+            }
+            // every triangle over x in {0, 1, 2^600} x y in {0, u, 2u, 3u, 4u, 5u, 8u, 9u}, u = 2^-1074
+            let u = f64::from_bits(1);
+            let xs = [0.0, 1.0, 2f64.powi(600)];
+            let ys = [0.0, u, 2.0 * u, 3.0 * u, 4.0 * u, 5.0 * u, 8.0 * u, 9.0 * u];
+            let pts: Vec<P4> = xs.iter().flat_map(|x| ys.iter().map(move |y| [*x, *y, 5.0, 7.0])).collect();
+            for a in &pts {
+                for b in &pts {
+                    for c in &pts {
+                        for role in 0..2u8 {
+                            run_case(&Case { ty: *ty, ctor: Ctor::WithRings, rings: vec![(role, vec![*a, *b, *c])] }, ctx);
+                        }
                     }
                 }
                 tick();
@@ -645,6 +704,7 @@ pub fn check(tier: Tier) -> i32 {
         }
         units.push(Unit::Devs { ty });
         units.push(Unit::Offsets { ty });
+        units.push(Unit::Sawtooth { ty });
         if ty == Ty::Polygon || tier == Tier::Thorough {
             let thorough = tier == Tier::Thorough;
             let n = magnitude_values_for(thorough).len();
@@ -687,7 +747,7 @@ pub fn check(tier: Tier) -> i32 {
             tier,
             level: "model_checking",
             engine: "E2 enumerator over lattice vertex sequences on the real Polygon*/Multipatch constructors and macros; oracle = exact i128 shoelace and vertex-sequence comparison (RefRing)",
-            rule: "single ring: every vertex sequence of length 1..5 (thorough 6) over {0,1,2}^2 x declared role x {new, with_rings, polygon!} x {Polygon, PolygonM, PolygonZ} x Z/M patterns {all equal, last differs only in M, only in Z}; two rings: every pair of sequences of length <= 4 over {0,1}^2 (thorough also <= 3 over {0,1,2}^2) x all role vectors; three rings: every triple of length <= 3 over {0,1}^2 x all role vectors; deviations: every slot of 4 base rings x F_xy, and a last vertex 1-8 ulps away from the first in one coordinate; thin rings of EVERY size 4..=bound and around 2^14, 2^15 (thorough 2^16, 2^17) vertices, placed so that every single edge term outweighs the area (one long edge, both orientations, both roles); every ring of 3-4 vertices over {0,1,2}^2 translated by offsets in {0, +-2^27, 2^40}^2; every triangle over the 12x12 (thorough 16x16) grid of coordinates {0, +-1, +-2^52, 2^52+2, -2^130, 2^-30, 2^600, 2^300, -2^-530, 2^-1000; thorough also -(2^52+2), 2^130, -2^600, 2^-530} (both roles), orientation judged by the sign of the exact area computed in arbitrary-precision integers; multipatch: every single patch (length <= 4) x 6 kinds x {new, with_parts, multipatch!}, every pair (length <= 3) x 36 kind pairs; non-trivial = >= 2 rings or a ring of >= 3 vertices",
+            rule: "single ring: every vertex sequence of length 1..5 (thorough 6) over {0,1,2}^2 x declared role x {new, with_rings, polygon!} x {Polygon, PolygonM, PolygonZ} x Z/M patterns {all equal, last differs only in M, only in Z}; two rings: every pair of sequences of length <= 4 over {0,1}^2 (thorough also <= 3 over {0,1,2}^2) x all role vectors; three rings: every triple of length <= 3 over {0,1}^2 x all role vectors; deviations: every slot of 4 base rings x F_xy, and a last vertex 1-8 ulps away from the first in one coordinate; thin rings of EVERY size 4..=bound and around 2^14, 2^15 (thorough 2^16, 2^17) vertices, placed so that every single edge term outweighs the area (one long edge, both orientations, both roles); every ring of 3-4 vertices over {0,1,2}^2 translated by offsets in {0, +-2^27, 2^40}^2; every triangle over the 12x12 (thorough 16x16) grid of coordinates {0, +-1, +-2^52, 2^52+2, -2^130, 2^-30, 2^600, 2^300, -2^-530, 2^-1000; thorough also -(2^52+2), 2^130, -2^600, 2^-530} (both roles), zigzag strips of 6..80 vertices with ordinates just below 2^52 (consecutive terms of about +-2^53 that cancel), single zigzags of 5..45 teeth whose ordinates wander inside a band of a few units (exact when summed edge after edge, not under another grouping of the additions), every triangle over {0, 1, 2^600} x {0..5, 8, 9 units of the smallest subnormal}; orientation judged by the sign of the exact area computed in arbitrary-precision integers; multipatch: every single patch (length <= 4) x 6 kinds x {new, with_parts, multipatch!}, every pair (length <= 3) x 36 kind pairs; non-trivial = >= 2 rings or a ring of >= 3 vertices",
             bounds: json!({"lattice": "3x3 (single ring), 2x2 (two / three rings)", "max_ring_len": tier.pick(5, 6), "units": units.len()}),
             exhaustive: true,
             assumptions: vec!["orientation is judged for every finite ring against the sign of the exact area sum (arbitrary-precision integers); rings on which f64 cannot represent a term of that sum are reported under the clause 'inexact-arithmetic', which is a listed known finding; closure and vertex preservation also on F_xy values; equality of vertices is IEEE == on the fields the point type has (so -0.0 closes +0.0)".into()],
